@@ -141,6 +141,8 @@ bool hazard_eras<Traits>::guard_ptr<T, MarkedPtr>::acquire_if_equal(const concur
   } else {
     if (he != nullptr) {
       he->release_guard();
+      // alloc_hazard_era can throw - make sure we do not release the guard a second time in that case
+      he = nullptr;
     }
 
     he = local_thread_data().alloc_hazard_era(era);
